@@ -353,6 +353,17 @@ func init() {
 		return TupleVal{m.in.I64(0), m.newError(m.in.Str("strconv.ParseInt: invalid syntax"))}
 	})
 
+	// grpc status errors: opaque non-nil errors
+	reg("google.golang.org/grpc/status.Errorf", func(m *Machine, fn *ssa.Function, a []Value) Value {
+		f := a[1].(*Term)
+		if f.IsConst() {
+			return m.newError(m.sprintf(f.sv, m.variadicArgs(a[2])))
+		}
+		return m.newError(m.in.Str("status error"))
+	})
+	reg("google.golang.org/grpc/status.Error", func(m *Machine, fn *ssa.Function, a []Value) Value {
+		return m.newError(a[1].(*Term))
+	})
 	reg("errors.Is", func(m *Machine, fn *ssa.Function, a []Value) Value {
 		x, y := a[0].(*IfaceVal), a[1].(*IfaceVal)
 		return m.equal(x, y, nil)
